@@ -164,6 +164,9 @@ func (in *instance) rollbackTo(h uint32, mode int) (err error, panicked interfac
 			if err = in.ckp.OnRollbackTo(cur-1, isPow); err != nil {
 				return
 			}
+			if os.Getenv("DPOSSTATE_STACK") != "" {
+				fmt.Printf("  rolled %s to %d: pending=%d active=%d histH=%d\n", in.name, cur-1, len(in.arb.GetPendingProducers()), len(in.arb.GetActiveProducers()), in.arb.State.History.Height())
+			}
 		}
 	} else {
 		err = in.ckp.OnRollbackTo(h, isPow)
